@@ -11,7 +11,7 @@ import Verif.Model.Common
     (`wrap64`), exactly as Go's int64 arithmetic does.
   * SSH timestamps (`ssh.Certificate.ValidAfter/ValidBefore`, Go `uint64`) are `BitVec 64`;
     `cast.Uint64`, `cast.Int64` (internal/cast/cast.go) are partial: failure is `Out.crash`
-    (the Go functions panic).  `time.Duration(x) * time.Second` is a wrapping 64-bit multiply.
+    (the Go functions panic); `cast.SafeUint64` returns an error instead (`safeU64`).  `time.Duration(x) * time.Second` is a wrapping 64-bit multiply.
   * `time.Unix(sec, 0)` / `Time.After` / `Time.Add` / `Time.Unix` on the values the SSH limit
     modifier builds from arbitrary uint64 input are modelled on Go's internal representation
     (`GTime`: int64 seconds since year 1 + nanoseconds), including the wrap in `time.Unix` and
@@ -25,10 +25,10 @@ import Verif.Model.Common
     timeduration.go  TimeDuration.IsZero, RelativeTime, timeOr
     sign_options.go  profileDefaultDuration.Modify, profileLimitDuration.Modify,
                      validityValidator.Valid
-    sign_ssh_options.go  SignSSHOptions.ModifyValidity, sshCertValidAfterModifier,
+    sign_ssh_options.go  (as of fix commits fffcedb, 1fe6db7) SignSSHOptions.ModifyValidity, sshCertValidAfterModifier,
                      sshCertValidBeforeModifier, sshDefaultDuration.Modify, sshLimitDuration.Modify,
                      sshCertValidityValidator.Valid, sshCertDefaultValidator.Valid (validity cases)
-    jwk.go/x5c.go/nebula.go  the `cast.Uint64(opts.ValidAfter.RelativeTime(t).Unix())` token modifiers
+    jwk.go/x5c.go/nebula.go  the `cast.SafeUint64(opts.ValidAfter.RelativeTime(t).Unix())` token modifiers
     authority/tls.go  Sign (lifetime), renewContext (duration, lifetime)
     cas/softcas/softcas.go  CreateCertificate / RenewCertificate date arithmetic (+ DER second precision)
     authority/ssh.go  renewSSH / rekeySSH date arithmetic
@@ -64,7 +64,8 @@ inductive Rej where
   | credNotBefore | credNotAfter            -- profileLimitDuration / sshLimitDuration
   | past | naBeforeNb | tooShort | tooLong   -- validityValidator, sshCertValidityValidator
   | lifetime0                                -- softcas
-  | afterGtBefore                            -- ModifyValidity
+  | afterGtBefore | mvEpoch                  -- ModifyValidity
+  | tokEpoch                                 -- JWK / X5C / Nebula AuthorizeSSHSign (token options)
   | badType | typeUnset | typeUnknown | vaZero | vbBeforeVa
   | dvaZero | dpast | dvbBeforeVa | dbadType -- sshCertDefaultValidator
   | noValidity                               -- renewSSH / rekeySSH
@@ -87,6 +88,9 @@ abbrev U64 := BitVec 64
 
 /-- `cast.Uint64(x)` for an int64 `x`: panics when negative. -/
 def castU64 (x : Int) : Out U64 := if x < 0 then .crash else .ok (BitVec.ofInt 64 x)
+
+/-- `cast.SafeUint64(x)` for an int64 `x`: an error (answered with refusal `r`) when negative. -/
+def safeU64 (x : Int) (r : Rej) : Out U64 := if x < 0 then .rej r else .ok (BitVec.ofInt 64 x)
 
 /-- `cast.Int64(x)` for a uint64 `x`: panics above MaxInt64. -/
 def castI64 (x : U64) : Out Int := if x.toNat ≥ 9223372036854775808 then .crash else .ok (x.toNat : Int)
@@ -335,21 +339,23 @@ structure SshOpts where
   backdate : Int := 0
   deriving Repr, DecidableEq
 
-/-- `cast.Uint64(x.RelativeTime(t).Unix())` -/
-def tdUnix (now : Int) (x : TD) : Out U64 := castU64 (unixOf (relativeTime now x))
+/-- `cast.SafeUint64(x.RelativeTime(t).Unix())`, an error being answered with refusal `r`
+    (since fix fffcedb; before it `cast.Uint64`, see `tdUnixUnguarded`) -/
+def tdUnix (now : Int) (x : TD) (r : Rej) : Out U64 := safeU64 (unixOf (relativeTime now x)) r
 
 /-- `SignSSHOptions.ModifyValidity(cert)` -/
 def modifyValidity (now : Int) (o : SshOpts) (c : SshCert) : Out SshCert := do
-  let va ← if !o.va.isZero then tdUnix now o.va else pure c.va
-  let vb ← if !o.vb.isZero then tdUnix now o.vb else pure c.vb
+  let va ← if !o.va.isZero then tdUnix now o.va .mvEpoch else pure c.va
+  let vb ← if !o.vb.isZero then tdUnix now o.vb .mvEpoch else pure c.vb
   if va > 0#64 ∧ vb > 0#64 ∧ va > vb then .rej .afterGtBefore
   else pure { c with va := va, vb := vb }
 
 /-- the `sshCertValidAfterModifier` / `sshCertValidBeforeModifier` a JWK/X5C/Nebula provisioner
-    derives from the SSH options inside the token (`none` = option absent) -/
+    derives from the SSH options inside the token (`none` = option absent); an instant before the
+    Unix epoch makes `AuthorizeSSHSign` fail with 400 -/
 def tokenMods (now : Int) (tok : SshOpts) : Out (Option U64 × Option U64) := do
-  let a ← if !tok.va.isZero then (tdUnix now tok.va) >>= fun v => pure (some v) else pure none
-  let b ← if !tok.vb.isZero then (tdUnix now tok.vb) >>= fun v => pure (some v) else pure none
+  let a ← if !tok.va.isZero then (tdUnix now tok.va .tokEpoch) >>= fun v => pure (some v) else pure none
+  let b ← if !tok.vb.isZero then (tdUnix now tok.vb .tokEpoch) >>= fun v => pure (some v) else pure none
   pure (a, b)
 
 def applyMods (m : Option U64 × Option U64) (c : SshCert) : SshCert :=
@@ -432,12 +438,15 @@ def sshValidityValid (cl : Claimer) (now backdate : Int) (c : SshCert) : Out Uni
     else if c.vb < c.va then .rej .vbBeforeVa
     else match cl.minMaxSSH c.ctype with
     | none => if c.ctype = 0 then .rej .typeUnset else .rej .typeUnknown
-    | some (mn, mx) => do
-      let di ← castI64 (c.vb - c.va)
-      let dur := secsToDur di
-      if dur < mn then .rej .tooShort
-      else if dur > wrap64 (mx + backdate) then .rej .tooLong
-      else pure ()
+    | some (mn, mx) =>
+      -- since fix 1fe6db7: `secs > uint64(math.MaxInt64/int64(time.Second))` is refused first
+      if (c.vb - c.va).toNat > 9223372036 then .rej .tooLong
+      else do
+        let di ← castI64 (c.vb - c.va)
+        let dur := secsToDur di
+        if dur < mn then .rej .tooShort
+        else if dur > wrap64 (mx + backdate) then .rej .tooLong
+        else pure ()
 
 /-- `sshCertDefaultValidator.Valid`: the validity-related cases (nonce, key, serial, key id and
     signature are present on every certificate `sshutil.CreateCertificate` returns) -/
@@ -495,5 +504,30 @@ def sshRekey (cl : Claimer) (anow pnow backdate : Int) (old : SshCert) : Out Ssh
   sshValidityValid cl pnow backdate c
   sshDefaultValid pnow c
   pure c
+
+/-! ## Historic (pre-fix) variants, kept for the refutation witnesses D6 / D7 -/
+
+/-- `sshCertValidityValidator.Valid` before fix 1fe6db7: no guard in front of the wrapping multiply -/
+def sshValidityValidUnguarded (cl : Claimer) (now backdate : Int) (c : SshCert) : Out Unit :=
+  if c.va = 0#64 then .rej .vaZero
+  else do
+    let nowU ← castU64 (unixOf now)
+    if c.vb < nowU then .rej .past
+    else if c.vb < c.va then .rej .vbBeforeVa
+    else match cl.minMaxSSH c.ctype with
+    | none => if c.ctype = 0 then .rej .typeUnset else .rej .typeUnknown
+    | some (mn, mx) => do
+      let di ← castI64 (c.vb - c.va)
+      let dur := secsToDur di
+      if dur < mn then .rej .tooShort
+      else if dur > wrap64 (mx + backdate) then .rej .tooLong
+      else pure ()
+
+/-- `SignSSHOptions.ModifyValidity` before fix fffcedb: `cast.Uint64` panics before 1970 -/
+def modifyValidityUnguarded (now : Int) (o : SshOpts) (c : SshCert) : Out SshCert := do
+  let va ← if !o.va.isZero then castU64 (unixOf (relativeTime now o.va)) else pure c.va
+  let vb ← if !o.vb.isZero then castU64 (unixOf (relativeTime now o.vb)) else pure c.vb
+  if va > 0#64 ∧ vb > 0#64 ∧ va > vb then .rej .afterGtBefore
+  else pure { c with va := va, vb := vb }
 
 end Verif.Validity
